@@ -269,6 +269,20 @@ def run_case(case):
                         hits = srv.disarm()
                         obs["fault_cases"] += 1
                         obs["fault_modes"][mode] = obs["fault_modes"].get(mode, 0) + 1
+                        if hits:
+                            # the server is healthy again: the same accessor must return
+                            # the same bytes as the local one (no state left by the failure)
+                            try:
+                                again = bytes(h.fetch_chunk(*ch))
+                                if again != want[ch]:
+                                    v.append({"kind": "chunk-differs-over-http", "detail":
+                                              f"{ctx} chunk {ch}: after a {mode!r} fault had "
+                                              "passed, the same accessor returns other bytes"})
+                            except Exception as exc:  # noqa: BLE001
+                                v.append({"kind": "accessor-unusable-after-the-fault-passed",
+                                          "detail": f"{ctx} chunk {ch}: {mode!r}@{skip}: "
+                                          f"{type(exc).__name__}: {str(exc)[:100]}"})
+                            obs["refetch_after_fault"] = obs.get("refetch_after_fault", 0) + 1
                         if hits == 0:
                             # the fault did not apply to any request of this fetch
                             if outcome[0] != "returned" or bytes(outcome[1]) != want[ch]:
